@@ -610,8 +610,10 @@ func (broker *Broker) scan() []sts.Hashed {
 
 	// Wrap the scanned file objects in type that can have hash added
 	wrapped := make([]sts.Hashed, len(files))
+	scanned := make(map[string]bool, len(files))
 	for i, file := range files {
 		wrapped[i] = &hashFile{File: file}
+		scanned[file.GetName()] = true
 		if broker.Conf.Renamer != nil {
 			log.Debug("Rename:", file.GetName(), "->", broker.Conf.Renamer(file))
 		}
@@ -625,7 +627,11 @@ func (broker *Broker) scan() []sts.Hashed {
 		switch {
 		case cached.GetHash() == "":
 			// Add any that might have failed the hash calculation last time
-			wrapped = append(wrapped, &hashFile{File: cached})
+			// (unless the scan found the file changed: then it is in the
+			// list already, with its current size and time)
+			if !scanned[cached.GetName()] {
+				wrapped = append(wrapped, &hashFile{File: cached})
+			}
 		case cached.IsDone() && broker.canDelete(cached):
 			if f, serr := store.Sync(cached); f != nil ||
 				(serr != nil && !store.IsNotExist(serr)) {
